@@ -7,7 +7,7 @@
 static CC_TreeSet *ts;
 static CC_TreeSetIter it; static int have_it;
 static int sparse;   /* obs=sparse: no content sweep after the operations, only on `observe` */
-static void shim_reset(void) { ts = NULL; have_it = 0; cmp_calls = 0; sparse = 0; }
+static void shim_reset(void) { ts = NULL; have_it = 0; cmp_calls = 0; sparse = 0; ids_reset(); }
 
 /* content through the public API: a fresh iterator (no comparator calls) */
 static void obs_abs(void) {
@@ -33,7 +33,7 @@ static void do_op(Cmd *c) {
     cmp_calls = 0;
     if (is_op(c, "new") || is_op(c, "new_default")) {
         int which = (int)kv_u64(c, "cmp", 0);
-        sparse = !strcmp(kv_str(c, "obs", ""), "sparse");
+        sparse = !strcmp(kv_str(c, "obs", ""), "sparse"); ids_reset();
         ts = NULL; have_it = 0;
         if (is_op(c, "new")) {
             CC_TreeSetConf conf; cc_treeset_conf_init(&conf);
